@@ -47,6 +47,7 @@ type HarnessConf struct {
 	MaxPaths   int            `json:"max_paths,omitempty"`
 	Unwind     int            `json:"unwind,omitempty"`
 	Solver     string         `json:"solver,omitempty"`
+	Replay     string         `json:"replay,omitempty"` // "" = native, "engine" = engine-only (schedule / lock audits)
 }
 
 type PropConf struct {
@@ -393,7 +394,16 @@ func cmdCheck(args []string) int {
 				incon = append(incon, "counterexample not replayed")
 				continue
 			}
-			verdict := rp.run(hconf.Pkg, path)
+			var verdict string
+			if hconf.Replay == "engine" {
+				// schedule- / lock-discipline obligations: the failing state
+				// depends on an interleaving that a native run cannot be forced
+				// into; the counterexample is the engine's execution of the
+				// real code's SSA under its deterministic scheduler
+				verdict = "REPRODUCED (engine execution of the real code under the recorded schedule; not replayable natively) " + v.Label
+			} else {
+				verdict = rp.run(hconf.Pkg, path)
+			}
 			replayNotes = append(replayNotes, fmt.Sprintf("%s %s: %s", v.Harness, v.Label, verdict))
 			if strings.HasPrefix(verdict, "REPRODUCED") {
 				nviol++
